@@ -70,13 +70,13 @@ theorem stepP_refines {σ} (S : Sys σ) {s : Sim σ} {a : Spec σ} (r : Rel s a)
     · have hf' : a.failed = false := by simpa using hf
       rw [simulateProtocolTC_eq S s steps pts rel a.now hwf (errors_of_live r hf') r.reached]
       simp only [hf', Bool.false_eq_true, if_false]
-      cases (if rel then pts.map (· + a.now) else pts).getLast? with
-      | none => exact ⟨rfl, r⟩
-      | some last =>
-        simp only
-        split
-        · exact ⟨rfl, r⟩
-        · split
+      split
+      · exact ⟨rfl, r⟩
+      · cases (if rel then pts.map (· + a.now) else pts).getLast? with
+        | none => exact ⟨rfl, r⟩
+        | some last =>
+          simp only
+          split
           · exact ⟨rfl, r⟩
           · exact runStop_refines S _ s a r
 
@@ -118,13 +118,13 @@ theorem Spec.stepP_axis {σ} (S : Sys σ) (a : Spec σ) (op : OpP) (ax : Spec.Ax
     simp only [Spec.stepP, Spec.protocolTC]
     split
     · exact ax
-    · cases (if rel then pts.map (· + a.now) else pts).getLast? with
-      | none => exact ax
-      | some last =>
-        simp only
-        split
-        · exact ax
-        · split
+    · split
+      · exact ax
+      · cases (if rel then pts.map (· + a.now) else pts).getLast? with
+        | none => exact ax
+        | some last =>
+          simp only
+          split
           · exact ax
           · exact Spec.runStop_axis S _ a ax
 
